@@ -118,17 +118,17 @@ func (r *UnitRun) evalExpr(st *State, e ast.Expr) Val {
 		if s.Cap != "" {
 			s.Cap = sub(s.Cap, lo)
 		}
-		parentView, parentOf := s.View, s.viewOf
+		parentView, hasParent := r.lookupView(st, &s)
 		s.Off = add(s.Off, lo)
 		s.Len = sub(hi, lo)
-		s.View, s.viewOf = "", ""
 		if _, lit := isIntLit(s.Off); !lit {
-			r.addView(st, &s, "sub")
-			if parentView != "" && parentOf == s.viewOf {
+			_, existed := r.lookupView(st, &s)
+			sv := r.addView(st, &s, "sub")
+			if hasParent && !existed && sv != "" {
 				// also relative to the parent's view, so that facts stated over the parent window carry over by plain matching
 				qcount++
 				k := fmt.Sprintf("k!q%d", qcount)
-				st.assume(fmt.Sprintf("(forall ((%s Int)) (! (= (select %s %s) (select %s (+ %s %s))) :pattern ((select %s %s))))", k, s.View, k, parentView, lo, k, s.View, k))
+				st.assume(fmt.Sprintf("(forall ((%s Int)) (! (= (select %s %s) (select %s (+ %s %s))) :pattern ((select %s %s))))", k, sv, k, parentView, lo, k, sv, k))
 			}
 		}
 		return Val{K: KSlice, S: &s, Go: base.Go}
